@@ -1,7 +1,272 @@
-import Atomman.Prelude
-open Atomman
+import Atomman.C10
+open Atomman Atomman.C10
 
-/-- stub: replaced when the C10 model is built. -/
-def handleC10 (_toks : List String) : String := err "op"
+/-!
+  Line protocol of the C10 driver (see harness/props/c10.py).  Replies are JSON text:
+  floats are strings `"~p/q"` (exact rationals), integers are JSON numbers.
+    arr   := <f|i|s> <rank> <dims…> <data…>
+    unit  := <unit string | -> <fW> <fR>        (factor under the writing / reading working units)
+    uc    <via> unit arr
+    box   <via> unit <12 rationals: a b c origin>
+    atoms <via> <natoms> <nprops> {<name> unit arr}*
+    sys   <via> unit(box) <12 rationals> <3 pbc> <nsym> {sym|-}* <nmass> {mass|-}* <natoms> <nprops> {<name> unit arr}*
+    ec    <via> unit <36 C> <36 normalized C>
+    nest  <rank> <dims…> <data…>
+  via = tree | json | xml (xml applies the one-element-list collapse before reading back).
+-/
+
+abbrev P (α : Type) := List String → Option (α × List String)
+
+def pTok : P String
+  | [] => none
+  | t :: r => some (t, r)
+
+def pNat : P Nat
+  | [] => none
+  | t :: r => t.toNat?.map (·, r)
+
+def pRat : P Rat
+  | [] => none
+  | t :: r => (parseRat? t).map (·, r)
+
+def pMany {α : Type} (p : P α) : Nat → P (List α)
+  | 0, ts => some ([], ts)
+  | n + 1, ts =>
+    match p ts with
+    | none => none
+    | some (x, r) =>
+      match pMany p n r with
+      | none => none
+      | some (xs, r') => some (x :: xs, r')
+
+def pArr : P (Arr Rat) := fun ts =>
+  match ts with
+  | dt :: rk :: r =>
+    match rk.toNat? with
+    | none => none
+    | some rank =>
+      match pMany pNat rank r with
+      | none => none
+      | some (dims, r1) =>
+        let n := prodNat dims
+        if dt = "f" then
+          (pMany pRat n r1).map (fun (xs, r2) => (⟨dims, .flt xs⟩, r2))
+        else if dt = "i" then
+          match parseInts? (r1.take n) with
+          | some is => if is.length = n then some (⟨dims, .int is⟩, r1.drop n) else none
+          | none => none
+        else if dt = "s" then
+          if (r1.take n).length = n then some (⟨dims, .str (r1.take n)⟩, r1.drop n) else none
+        else none
+  | _ => none
+
+structure UnitSpec where
+  unit : Option String
+  fW : Rat
+  fR : Rat
+
+def pUnit : P UnitSpec := fun ts =>
+  match ts with
+  | u :: a :: b :: r =>
+    match parseRat? a, parseRat? b with
+    | some fW, some fR => some (⟨if u = "-" then none else some u, fW, fR⟩, r)
+    | _, _ => none
+  | _ => none
+
+def pProp : P (String × UnitSpec × Arr Rat) := fun ts =>
+  match ts with
+  | name :: r =>
+    match pUnit r with
+    | none => none
+    | some (u, r1) => (pArr r1).map (fun (a, r2) => ((name, u, a), r2))
+  | _ => none
+
+def pOpt : P (Option String) := fun ts =>
+  match ts with
+  | [] => none
+  | t :: r => some (if t = "-" then none else some t, r)
+
+def pOptRat : P (Option Rat) := fun ts =>
+  match ts with
+  | [] => none
+  | t :: r => if t = "-" then some (none, r) else (parseRat? t).map (fun x => (some x, r))
+
+def pBool : P Bool := fun ts =>
+  match ts with
+  | [] => none
+  | t :: r => (parseBool? t).map (·, r)
+
+/-- factor table → `fac`; a unit that was not supplied maps to 0 (never reached: every unit on a
+    request line carries its factors). -/
+def mkFac (tab : List (String × Rat)) (u : String) : Rat := (tab.lookup u).getD 0
+
+/-! ### printing -/
+
+def jStr (s : String) : String := "\"" ++ s ++ "\""
+def jFlt (x : Rat) : String := "\"~" ++ showRat x ++ "\""
+
+def jSc : Sc Rat → String
+  | .flt x => jFlt x
+  | .int i => toString i
+  | .str s => jStr s
+  | .bool b => if b then "true" else "false"
+  | .null => "null"
+
+mutual
+  def jDM : DM Rat → String
+    | .leaf v => jSc v
+    | .list l => "[" ++ jDML l ++ "]"
+    | .node kv => "{" ++ jDMKV kv ++ "}"
+  def jDML : List (DM Rat) → String
+    | [] => ""
+    | [x] => jDM x
+    | x :: xs => jDM x ++ "," ++ jDML xs
+  def jDMKV : List (String × DM Rat) → String
+    | [] => ""
+    | [(k, v)] => jStr k ++ ":" ++ jDM v
+    | (k, v) :: r => jStr k ++ ":" ++ jDM v ++ "," ++ jDMKV r
+end
+
+def jList (l : List String) : String := "[" ++ ",".intercalate l ++ "]"
+
+def jArr (a : Arr Rat) : String :=
+  let (dt, data) := match a.data with
+    | .flt l => ("f", l.map jFlt)
+    | .int l => ("i", l.map toString)
+    | .str l => ("s", l.map jStr)
+  "{\"shape\":" ++ jList (a.shape.map toString) ++ ",\"dtype\":" ++ jStr dt ++ ",\"data\":" ++ jList data ++ "}"
+
+def jV3 (v : V3 Rat) : String := jList (v.toList.map jFlt)
+
+def jBox (b : Box Rat) : String :=
+  "{\"avect\":" ++ jV3 b.vects.r0 ++ ",\"bvect\":" ++ jV3 b.vects.r1 ++ ",\"cvect\":" ++ jV3 b.vects.r2
+    ++ ",\"origin\":" ++ jV3 b.origin ++ "}"
+
+def jAtoms (a : AtomsM Rat) : String :=
+  "{\"natoms\":" ++ toString a.natoms ++ ",\"props\":"
+    ++ jList (a.props.map (fun e => "[" ++ jStr e.1 ++ "," ++ jArr e.2 ++ "]")) ++ "}"
+
+def jSys (s : SystemM Rat) : String :=
+  "{\"box\":" ++ jBox s.box ++ ",\"pbc\":" ++ jList (s.pbc.map (fun b => if b then "true" else "false"))
+    ++ ",\"symbols\":" ++ jList (s.symbols.map (fun o => match o with | none => "null" | some x => jStr x))
+    ++ ",\"masses\":" ++ jList (s.masses.map (fun o => match o with | none => "null" | some x => jFlt x))
+    ++ ",\"atoms\":" ++ jAtoms s.atoms ++ "}"
+
+def jNest : Nat → Nest Rat → String
+  | _, .val x => jFlt x
+  | 0, .arr _ => "[]"
+  | n + 1, .arr l => jList (l.map (jNest n))
+
+def viaOf (via : String) (t : DM Rat) : Option (DM Rat) :=
+  if via = "tree" ∨ via = "json" then some t else if via = "xml" then some (xmlNorm t) else none
+
+def reply {α : Type} (via : String) (w : Option (DM Rat)) (rd : DM Rat → Option α) (pr : α → String) : String :=
+  match w with
+  | none => "{\"tree\":null,\"read\":null}"
+  | some t =>
+    match viaOf via t with
+    | none => err "format"
+    | some t' =>
+      "{\"tree\":" ++ jDM t ++ ",\"read\":" ++ (match rd t' with | none => "null" | some x => pr x) ++ "}"
+
+def eps : Rat := mkRat 1 1000000000
+def rtolSym : Rat := mkRat 1 100000
+
+def facTabs (props : List (String × UnitSpec × Arr Rat)) (extra : List (Option String × Rat × Rat)) :
+    (String → Rat) × (String → Rat) :=
+  let ents := props.filterMap (fun (n, u, _) => (effUnit n u.unit).map (fun s => (s, u.fW, u.fR)))
+    ++ extra.filterMap (fun (u, a, b) => u.map (fun s => (s, a, b)))
+  (mkFac (ents.map (fun (s, a, _) => (s, a))), mkFac (ents.map (fun (s, _, b) => (s, b))))
+
+def handleC10 (toks : List String) : String :=
+  match toks with
+  | "uc" :: via :: r =>
+    match pUnit r with
+    | some (u, r1) =>
+      match pArr r1 with
+      | some (a, []) =>
+        let (fw, fr) := facTabs [] [(u.unit, u.fW, u.fR)]
+        reply via (ucModel fw u.unit a) (valueUnit fr) jArr
+      | _ => err "format"
+    | none => err "format"
+  | "box" :: via :: r =>
+    match pUnit r with
+    | some (u, r1) =>
+      match parseRats? r1 with
+      | some [a, b, c, d, e, f, g, h, i, x, y, z] =>
+        let (fw, fr) := facTabs [] [(u.unit, u.fW, u.fR)]
+        reply via (boxModel fw u.unit ⟨⟨⟨a, b, c⟩, ⟨d, e, f⟩, ⟨g, h, i⟩⟩, ⟨x, y, z⟩⟩) (boxRead fr eps) jBox
+      | _ => err "format"
+    | none => err "format"
+  | "atoms" :: via :: n :: np :: r =>
+    match n.toNat?, np.toNat? with
+    | some n, some np =>
+      match pMany pProp np r with
+      | some (props, []) =>
+        let (fw, fr) := facTabs props []
+        let a : AtomsM Rat := ⟨n, props.map (fun (nm, _, arr) => (nm, arr))⟩
+        reply via (atomsModel fw (props.map (fun (nm, u, _) => (nm, u.unit))) a) (atomsRead fr) jAtoms
+      | _ => err "format"
+    | _, _ => err "format"
+  | "sys" :: via :: r =>
+    match pUnit r with
+    | none => err "format"
+    | some (bu, r1) =>
+      match pMany pRat 12 r1 with
+      | some ([a, b, c, d, e, f, g, h, i, x, y, z], r2) =>
+        match pMany pBool 3 r2 with
+        | some (pbc, ns :: r3) =>
+          match ns.toNat? with
+          | none => err "format"
+          | some ns =>
+            match pMany pOpt ns r3 with
+            | some (syms, nm :: r4) =>
+              match nm.toNat? with
+              | none => err "format"
+              | some nm =>
+                match pMany pOptRat nm r4 with
+                | some (masses, n :: np :: r5) =>
+                  match n.toNat?, np.toNat? with
+                  | some n, some np =>
+                    match pMany pProp np r5 with
+                    | some (props, []) =>
+                      let (fw, fr) := facTabs props [(bu.unit, bu.fW, bu.fR)]
+                      let s : SystemM Rat := ⟨⟨⟨⟨a, b, c⟩, ⟨d, e, f⟩, ⟨g, h, i⟩⟩, ⟨x, y, z⟩⟩, pbc, syms, masses,
+                        ⟨n, props.map (fun (nm, _, arr) => (nm, arr))⟩⟩
+                      reply via (systemModel fw bu.unit (props.map (fun (nm, u, _) => (nm, u.unit))) s)
+                        (systemRead fr eps) jSys
+                    | _ => err "format"
+                  | _, _ => err "format"
+                | _ => err "format"
+            | _ => err "format"
+        | _ => err "format"
+      | _ => err "format"
+  | "ec" :: via :: r =>
+    match pUnit r with
+    | some (u, r1) =>
+      match parseRats? r1 with
+      | some xs =>
+        if xs.length ≠ 72 then err "format" else
+        let (fw, fr) := facTabs [] [(u.unit, u.fW, u.fR)]
+        let c := xs.take 36
+        let nc := xs.drop 36
+        reply via (ecModel fw u.unit (fun _ => nc) c) (ecRead fr eps eps rtolSym)
+          (fun l => jList (l.map jFlt))
+      | none => err "format"
+    | none => err "format"
+  | "nest" :: rk :: r =>
+    match rk.toNat? with
+    | none => err "format"
+    | some rank =>
+      match pMany pNat rank r with
+      | some (dims, r1) =>
+        match parseRats? r1 with
+        | some xs =>
+          if xs.length ≠ prodNat dims then err "value" else
+          let t := unflatten dims xs
+          "{\"nest\":" ++ jNest rank t ++ ",\"flat\":" ++ jList ((Nest.flatten dims t).map jFlt) ++ "}"
+        | none => err "format"
+      | none => err "format"
+  | _ => err "op"
 
 def main : IO Unit := runDriver handleC10
